@@ -250,6 +250,7 @@ def run(ctx):
     d6_region_fresh(db, rep)
     region_entries_nonnull(db, rep, "D6b-REGION-NONNULL")
     d7_backing_fresh(db, rep)
+    d8_owned_fields_released(db, rep)
 
     # ---- D3 ------------------------------------------------------------------
     cp = db.func("orc_compiler_compile_program", "orccompiler")
@@ -492,3 +493,41 @@ def d7_backing_fresh(db, rep):
                       "their storage and code written into one overwrites live functions of the other" % (f.name, "; ".join(bad)), line=c.line)
     if n < 2:
         raise AnalysisBroken("only %d file-backed mmap calls found in orccodemem.c" % n)
+
+
+def d8_owned_fields_released(db, rep, rule="D8-CHUNK-RELEASED", destructor="orc_code_free", tub="orccode",
+                             owned=(("chunk", ("orc_code_chunk_free",)), ("insns", ("free",)), ("vars", ("free",)))):
+    """D8: "memory released by frees is ... reused".  Freeing a code object must give back what it owns on EVERY path on which
+    it owns it: the only condition a release may depend on is the owned pointer itself being non-NULL.  A further condition
+    (e.g. "not when the entry point is the emulator") leaves the chunk marked used for ever: every compile/free cycle of such a
+    program costs one chunk and the regions grow without bound.  Decided as a path rule: from the entry of the destructor to
+    the release of the object itself, every path on which the field is not known NULL passes its release."""
+    from flow import atom, path_to
+    f = db.func(destructor, tub)
+    rep.saw(f)
+    obj = f.params[0]["name"]
+    final = [c for c in f.calls("free") if c.args() and access_path(strip_casts(c.args()[0])) == obj]
+    if not final:
+        raise AnalysisBroken("%s: release of the object itself not found" % destructor)
+
+    def null_edge(b, idx, path):
+        blk = f.blocks[b]
+        ek = f.edge_kind(b, idx)
+        if blk.cond is None or ek not in (True, False):
+            return False
+        n, pol = atom(blk.cond, ek)
+        return n is not None and access_path(n) == path and pol is False
+    n = 0
+    for fld, rel in owned:
+        path = "%s->%s" % (obj, fld)
+        if not any(x.k == "MemberExpr" and x.name == fld for x in f.walk()):
+            raise AnalysisBroken("%s does not mention `%s`" % (destructor, path))
+        n += 1
+        wit = path_to(f, final[-1], lambda e: e.k == "CallExpr" and e.name in rel and e.args() and access_path(strip_casts(e.args()[0])) == path,
+                      lambda b, idx: not null_edge(b, idx, path))
+        rep.check(wit is None, rule, where(f), "%s:%s" % (destructor, fld),
+                  "`%s` is released on every path on which it is not NULL" % path,
+                  "%s can release the object without releasing `%s` although it is set (the release depends on more than the pointer being non-NULL): "
+                  "what it owns - a chunk of code memory - stays allocated for ever, and a bounded working set of compiles and frees makes the number of "
+                  "regions grow" % (destructor, path), line=final[-1].line)
+    return n
